@@ -96,7 +96,7 @@ fn run_set<S: PS>(ctx: &Ctx) -> Acc {
     acc.count("single_field_partition_size", (n_polys * 256 * bad_raws.len() * 2) as u64);
 
     // ---- reject side: multi-field and pattern corruptions -----------------------------------------
-    let n_multi = ctx.budget(200, 5000) as usize;
+    let n_multi = ctx.budget(200, 200_000) as usize;
     let accs = par_map(16, |sh| {
         let mut a = Acc::new();
         let mut g = Prng::derive(ctx.seed, &format!("c10-multi-{}", p.name), sh as u64);
